@@ -503,7 +503,9 @@ class Theory:
                 self.extend_constant(ext)
             elif ext.is_theorem():
                 if ext.prf:
-                    self.check_proof(ext.prf)
+                    res_th = self.check_proof(ext.prf, no_gaps=True)
+                    if res_th is None or not res_th.can_prove(ext.th):
+                        raise CheckProofException("proof does not conclude theorem " + ext.name)
                 else:  # No proof - add as axiom
                     ext_report.add_axiom(ext.name, ext.th)
 
